@@ -92,6 +92,8 @@ Lemma entry_meta : forall mws m, m_meta (entry_msg mws m) = m_meta m.
 Proof. induction mws as [|x mws IH]; intros m; simpl; auto. destruct x; rewrite ?IH; reflexivity. Qed.
 Lemma entry_base : forall mws m, m_base_done (entry_msg mws m) = m_base_done m.
 Proof. induction mws as [|x mws IH]; intros m; simpl; auto. destruct x; rewrite ?IH; reflexivity. Qed.
+Lemma entry_bdl : forall mws m, m_base_dl (entry_msg mws m) = m_base_dl m.
+Proof. induction mws as [|x mws IH]; intros m; simpl; auto. destruct x; rewrite ?IH; reflexivity. Qed.
 Lemma entry_ctx : forall mws m, m_ctx (entry_msg mws m) = push_layers mws (m_ctx m).
 Proof. induction mws as [|x mws IH]; intros m; simpl; auto. destruct x; rewrite ?IH; reflexivity. Qed.
 Lemma ack_settle_idem : forall s, ack_settle (ack_settle s) = ack_settle s.
@@ -129,7 +131,7 @@ Proof. destruct o; simpl; auto. apply Z.eqb_refl. Qed.
 Lemma seen_ok_entry : forall mws m, seen_ok mws m (view (entry_msg mws m)) = true.
 Proof.
   intros mws m. unfold seen_ok, view, ctx_done. simpl.
-  rewrite entry_meta, entry_ctx, entry_base, entry_settle, push_layers_alive.
+  rewrite entry_meta, entry_ctx, entry_base, entry_settle, entry_bdl, push_layers_alive.
   rewrite meta_equiv_refl, !Bool.eqb_reflx, optZ_eqb_refl, settle_eqb_refl. reflexivity.
 Qed.
 
@@ -221,7 +223,8 @@ Proof.
   set (w := W (w_msg w0) (w_calls w0) []).
   pose proof (stack_char mws Hs (scripted s) w) as CH. cbv zeta in CH.
   pose proof (stack_ctx mws _ (scripted_ctx s) w) as CX.
-  destruct (stack repaired mws (scripted s) w) as [w1 r]. simpl in CH, CX.
+  pose proof (stack_bdl repaired mws _ (scripted_bdl s) w) as CD.
+  destruct (stack repaired mws (scripted s) w) as [w1 r]. simpl in CH, CX, CD.
   set (c := nth_last default_call s (w_calls w0)) in *.
   set (m0 := w_msg w0) in *.
   set (me := entry_msg mws m0) in *.
@@ -247,7 +250,7 @@ Proof.
   rewrite O.
   (* context restored *)
   assert (X: ctx_restored m0 (cancels c) (view (w_msg w1)) = true).
-  { unfold ctx_restored, view, ctx_done. simpl. rewrite CX, C3. unfold mx. rewrite actions_base.
+  { unfold ctx_restored, view, ctx_done. simpl. rewrite CX, CD, C3. unfold mx. rewrite actions_base.
     unfold me. rewrite entry_base. fold m0.
     rewrite !Bool.eqb_reflx, optZ_eqb_refl. simpl.
     rewrite bool3. change (cancels c) with (existsb is_cancel (c_pre c)).
@@ -484,6 +487,7 @@ Proof.
   set (w := W (w_msg w0) (w_calls w0) []).
   destruct (middle_sim outer maxr inner s w Ho Hi) as (A & B & T & K & TR).
   pose proof (stack_ctx (outer ++ MRetry maxr :: inner) _ (scripted_ctx s) w) as CX.
+  pose proof (stack_bdl repaired (outer ++ MRetry maxr :: inner) _ (scripted_bdl s) w) as CD.
   pose proof (counted_bare maxr (map_res (effo inner) s) w eq_refl) as [N1 N2].
   pose proof (mw_ctx (MRetry maxr) _ (scripted_ctx (map_res (effo inner) s)) w) as CB.
   pose proof (retry_first_seen maxr inner s (set_msg w (entry_msg outer (w_msg w))) Hi eq_refl) as FS.
@@ -500,7 +504,7 @@ Proof.
     by (apply list_eqb_spec; auto; intros; apply Z.eqb_eq).
   rewrite E2, K, K_eqb_refl, FS.
   rewrite <- entry_app, seen_ok_entry.
-  unfold view, ctx_done. simpl. rewrite CX, B, CB.
+  unfold view, ctx_done. simpl. rewrite CX, CD, B, CB.
   rewrite !Bool.eqb_reflx, optZ_eqb_refl. reflexivity.
 Qed.
 
@@ -529,4 +533,25 @@ Proof.
     + destruct (split_retry_some _ _ _ _ E) as [-> Ho]. now apply retry_accepted.
     + destruct (observe _ _) as [[tr r] v]. reflexivity.
   - apply simple_accepted. eapply split_retry_none; eauto.
+Qed.
+
+(** ** a message that arrives with a deadline already on its context *)
+Theorem arriving_deadline : forall mws s w, forallb is_simple mws = true ->
+  let seen := view (entry_msg mws (w_msg w)) in
+  w_trace (fst (stack repaired mws (scripted s) w)) = w_trace w ++ [ECall (w_calls w) seen]
+  /\ v_deadline seen = dl_min (m_base_dl (w_msg w)) (min_deadline (push_layers mws (m_ctx (w_msg w))))
+  /\ (forall b, m_base_dl (w_msg w) = Some b -> exists d, v_deadline seen = Some d /\ (d <= b)%Z)
+  /\ m_base_dl (w_msg (fst (stack repaired mws (scripted s) w))) = m_base_dl (w_msg w)
+  /\ v_deadline (view (w_msg (fst (stack repaired mws (scripted s) w)))) = v_deadline (view (w_msg w)).
+Proof.
+  intros mws s w Hs. cbv zeta.
+  pose proof (stack_char mws Hs (scripted s) w) as CH. cbv zeta in CH.
+  destruct CH as (_ & _ & _ & _ & _ & C6). simpl in C6.
+  pose proof (stack_bdl repaired mws _ (scripted_bdl s) w) as CD.
+  pose proof (stack_ctx mws _ (scripted_ctx s) w) as CX.
+  repeat split; auto.
+  - unfold view. simpl. now rewrite entry_bdl, entry_ctx.
+  - intros b Hb. unfold view. simpl. rewrite entry_bdl, entry_ctx, Hb.
+    destruct (min_deadline _) as [x|]; simpl; eexists; split; eauto; lia.
+  - unfold view. simpl. now rewrite CD, CX.
 Qed.
